@@ -273,6 +273,26 @@ CHECKS = {
               'tests pin the behaviour (default names collide after ComposedPopulationModel.set_dim_names(None); ReducedPopulationModel.n_ids()).'),
         technique='contract-based: representation invariants on the real classes as run-time contracts, exhaustively enumerated bounded configurations and histories (bounded stand-in); one symbolic-n obligation discharged deductively',
     ),
+    'C18': dict(
+        category='proof',
+        text=('init.law: sample_initial_parameters of HierarchicalLogPosterior (every population composition of C02 plus multi-dimensional pooled / '
+              'heterogeneous blocks in front of hierarchical ones, 2 individuals), LogPosterior and PopulationFilterLogPosterior is executed '
+              'symbolically over the ghost RNG with opaque prior draws: the result has the posterior\'s dimension, the population-level block of every '
+              'initial point is the prior draw of that point, and every individual-level entry has exactly the law of the population model at the '
+              'population values of its own point and the individual\'s covariates (pooled / heterogeneous dimensions removed); noise realisations of '
+              'the filter posterior are standard normal.  chains.map: SamplingController._format_chains, executed on a raw chain of opaque tokens '
+              '(value-independent) for every composition with 2-3 individuals, LogPosterior with and without ID: every parameter name appears once, '
+              'population-level names are indexed (chain, draw), individual-level ones additionally by the published individual IDs, and the cells '
+              'are in bijection with the raw chain cells at the published positions.  Bounded run-time contracts: finite prior / population '
+              'contributions and seed reproducibility with real pints priors, a deterministic-prior replay, optimisation tables (estimates put back '
+              'reproduce the score), SamplingController.run (spy on the raw chains), read-back by PosteriorPredictiveModel and '
+              'compute_pointwise_loglikelihood with identifying tags.'),
+        design_ref='DESIGN.md section 4 (C18)',
+        note=('Likelihoods and priors by contract in the symbolic part; seed reproducibility is the provenance contract of C16; hierarchical '
+              'compute_pointwise_ll is unimplemented upstream (NotImplementedError) and outside the claim; xarray / pandas are trusted containers '
+              '(executed on tokens); the bounded part is never counted as proved.'),
+        technique='contract-based deductive verification: ghost RNG law algebra on the symbolically executed real methods; value-independent execution on opaque tokens for the labelling bijection; bounded run-time contracts for the inference runs',
+    ),
     'C19': dict(
         category='proof',
         text=('The history property is reduced to per-method contracts and closed by induction over call histories.  frame: every evaluation method '
@@ -316,5 +336,6 @@ CHECK_MODULES = {
     'C15': 'contracts.c15',
     'C16': 'contracts.c16',
     'C17': 'contracts.c17',
+    'C18': 'contracts.c18',
     'C19': 'contracts.c19',
 }
